@@ -88,4 +88,7 @@ deriving DecidableEq, Repr
 def findConf (type : Nat) (s : Src) (confs : List Conf) (serverP : Bool) : Option Nat :=
   confs.findIdx? fun c => c.type = type ∧ (addressmatches c.hostports s serverP).isSome
 
+/-- `addr_equal` of udp.c: the same UDP association = same family (given), same address octets, same port -/
+def addrEqual (a : Bytes) (pa : Nat) (b : Bytes) (pb : Nat) : Bool := a == b && pa == pb
+
 end Rsp.Addr
